@@ -1,2 +1,137 @@
-/- driver stub for C10: replaced when the model exists -/
-def main : IO Unit := pure ()
+/- driver for C10: the device receive pipeline (Model.Device over Model.Npci,
+   Model.Apci, Model.Tsm, Model.Codec and the regenerated schema environment)
+
+   requests
+     {"op":"reset","cfg":{maxApdu,seg,maxSegs,window,retries,apduTimeout,segTimeout,appTimeout}}
+     {"op":"recv","src":"0a","hex":"<link octets>","app":[<answer>…]}
+         the application's answers, consumed one per indication of a confirmed
+         request, in order (the harness records them on the real device):
+         <answer> = {"k":"simple"|"complex"|"error"|"reject"|"abort","hex":"…","r":n,"srv":b,"dcc":0|1|2|null}
+     {"op":"quiesce"}                        fire every armed transaction timer
+     {"op":"dcc","d":0|1|2}                  the application switched the DCC gate (timed re-enable)
+     {"op":"learn","src":"0a","info":{maxApdu,seg,maxSegs,maxNpdu}}   I-Am seen by the application
+     {"op":"reqdecode","svc":n,"hex":"…"}    the ASAP service decoder alone
+   replies
+     {"r":"ok","fate":"…","wf":invoke|null,"out":[[dst|null,"<octets>"]…],"asked":n,"starved":n,
+      "sv":[[peer,id,state]…],"cl":n,"dcc":n,"br":"…"}
+-/
+import BacVerif.Drv.TsmDrv
+import BacVerif.Model.Device
+import BacVerif.Gen.Schemas
+open Lean BacVerif BacVerif.Drv BacVerif.Tsm BacVerif.Device
+
+/-- the driver's application: a queue of prepared answers -/
+structure AppQ where
+  queue : List AppReply := []
+  asked : Nat := 0
+  starved : Nat := 0
+
+def serveQ (q : AppQ) (_p : Peer) (_a : Apdu) : AppQ × AppReply :=
+  match q.queue with
+  | r :: rest => ({ q with queue := rest, asked := q.asked + 1 }, r)
+  | [] => ({ q with asked := q.asked + 1, starved := q.starved + 1 }, { answer := .simpleAck })
+
+def devCfg (base : Tsm.Cfg) : DevCfg AppQ :=
+  { base := base, env := Gen.Schemas.env, confirmed := Gen.Schemas.confirmed,
+    unconfirmed := Gen.Schemas.unconfirmed, serve := serveQ,
+    unconf := fun q _ _ => (q, []) }
+
+structure DSt where
+  base : Tsm.Cfg := {}
+  dev : DevState AppQ := { app := {} }
+
+def dccOfNat : Nat → Dcc
+  | 0 => .enable | 1 => .disable | _ => .disableInitiation
+def dccCode : Dcc → Nat
+  | .enable => 0 | .disable => 1 | .disableInitiation => 2
+
+def u8 (n : Nat) : UInt8 := UInt8.ofNat n
+
+def answerOfJson (j : Json) : R AppReply := do
+  let hex ← match fldOpt j "hex" with
+    | none => pure []
+    | some _ => fldHex j "hex"
+  let ans ← match ← fldStr j "k" with
+    | "simple" => pure AppAnswer.simpleAck
+    | "complex" => pure (AppAnswer.complexAck hex)
+    | "error" => pure (AppAnswer.error hex)
+    | "reject" => pure (AppAnswer.reject (u8 (← fldNat j "r")))
+    | "abort" => pure (AppAnswer.abort (fldB j "srv") (u8 (← fldNat j "r")))
+    | k => throw s!"bad answer kind {k}"
+  let dcc ← fldOptNat j "dcc"
+  pure { dcc := dcc.map dccOfNat, answer := ans }
+
+def jAddr : Npci.Addr → Json
+  | .null => Json.arr #["null"]
+  | .localBroadcast => Json.arr #["lb"]
+  | .globalBroadcast => Json.arr #["gb"]
+  | .remoteBroadcast n => Json.arr #["rb", Json.num n]
+  | .localStation m => Json.arr #["ls", jHex m]
+  | .remoteStation n m => Json.arr #["rs", Json.num n, jHex m]
+
+def jSv (t : Txn) : Json :=
+  Json.arr #[jAddr (addrOf t.key.peer), Json.num t.key.id, Json.num t.body.st.code]
+
+def jFrame (f : Frame) : Json :=
+  Json.arr #[(match f.dst with | none => Json.null | some m => jHex m), jHex f.octets]
+
+def fateName : Fate → String
+  | .badNpci => "badNpci" | .notForUs => "notForUs" | .unknownMsg => "unknownMsg"
+  | .badMsg => "badMsg" | .netMsg => "netMsg" | .badApci => "badApci" | .delivered => "delivered"
+
+def hdrSig (f : Frame) : String :=
+  match replyHdr f.octets with
+  | some h => s!"{h.ty}{if h.seg then "s" else ""}" ++ (if h.ty = 6 ∨ h.ty = 7 then s!"r{h.code}" else "")
+  | none => "x"
+
+def report (st : DSt) (extra : List (String × Json)) (outs : List Frame) (br : String) : Json :=
+  jOk (extra ++
+    [("out", Json.arr (outs.map jFrame).toArray),
+     ("asked", Json.num st.dev.app.asked), ("starved", Json.num st.dev.app.starved),
+     ("sv", Json.arr (st.dev.sap.servers.map jSv).toArray),
+     ("cl", Json.num st.dev.sap.clients.length),
+     ("dcc", Json.num (dccCode st.dev.sap.dcc)),
+     ("br", Json.str br)])
+
+def handle (st : DSt) (j : Json) : R (DSt × Json) := do
+  match ← fldStr j "op" with
+  | "reset" =>
+    let base ← cfgOfJson (← fld j "cfg")
+    let st' : DSt := { base := base, dev := { app := {} } }
+    pure (st', jOk [])
+  | "recv" =>
+    let src ← fldHex j "src"
+    let f ← fldHex j "hex"
+    let answers ← (← fldArr j "app").toList.mapM answerOfJson
+    let dev0 := { st.dev with app := { queue := answers } }
+    let (dev1, outs) := recv (devCfg st.base) dev0 src f
+    let st' := { st with dev := dev1 }
+    let wf := wellFramed f
+    let br := s!"{fateName (fate f)}:{if wf.isSome then "wf" else "-"}:{dev1.app.asked}:" ++
+      String.intercalate "," (outs.map hdrSig)
+    pure (st', report st' [("fate", Json.str (fateName (fate f))), ("wf", jNatOpt wf),
+                           ("left", Json.num dev1.app.queue.length)] outs br)
+  | "quiesce" =>
+    let dev0 := { st.dev with app := {} }
+    let (dev1, outs) := quiesce (devCfg st.base) dev0
+    let st' := { st with dev := dev1 }
+    pure (st', report st' [] outs ("q:" ++ String.intercalate "," (outs.map hdrSig)))
+  | "dcc" =>
+    let d := dccOfNat (← fldNat j "d")
+    let dev1 := { st.dev with sap := { st.dev.sap with dcc := d } }
+    pure ({ st with dev := dev1 }, jOk [])
+  | "learn" =>
+    let src ← fldHex j "src"
+    let info ← diOfJson (← fld j "info")
+    let p := peerOf (.localStation src)
+    let dev1 := { st.dev with sap := { st.dev.sap with devInfo := setDI st.dev.sap.devInfo p info } }
+    pure ({ st with dev := dev1 }, jOk [])
+  | "reqdecode" =>
+    let r := Device.reqDecode Gen.Schemas.env Gen.Schemas.confirmed (← fldNat j "svc") (← fldHex j "hex")
+    pure (st, match r with
+      | .ok => jOk [("d", "ok")]
+      | .reject n => jOk [("d", "reject"), ("n", Json.num n)]
+      | .abort n => jOk [("d", "abort"), ("n", Json.num n)])
+  | op => throw s!"unknown op {op}"
+
+def main : IO Unit := loopS ({} : DSt) handle
